@@ -273,6 +273,25 @@ def build(tier="quick", seed=0):
 
             pack.add(Obligation(name, lambda tier, name=name, th=th, judge=judge: prove_paths(name, th, judge, lambda m, p: {}), replay=lambda w, src=src, disp_name=disp_name: {"call": "c05_naive", "args": {"src": src, "display": disp_name}}, functions=FU, mode="representative values x display zones"))
 
+    # ---- A2g. the documented empty default of an unset list / digest field belongs to ONE record: filling it in place in one record leaves every other record
+    #      of the type (made before, made afterwards, decoded from a stream) with its own empty default
+    def th_defaults():
+        D = it.call(RD, ["c05/def", [("string[]", "tags"), ("digest", "dg"), ("uint16[]", "ports"), ("varint", "n")]], {})
+        before = it.call(D, [], {"n": 0})
+        a = it.call(D, [], {"n": 1})
+        a.attrs["tags"].base.append(it.call(base.g["fieldtype"], ["string"], {}) and "suspicious")
+        it.setattr_(a.attrs["dg"], "md5", "d41d8cd98f00b204e9800998ecf8427e")
+        a.attrs["ports"].base.append(80)
+        after = it.call(D, [], {"n": 2})
+        decoded = it.call(it.getattr_(D.attrs["recordType"], "_unpack"), [None, None, None, 3], {}) if False else None
+        out = []
+        for r in (before, after):
+            out.append((len(r.attrs["tags"].base), it.unbase(it.getattr_(r.attrs["dg"], "md5")), len(r.attrs["ports"].base), r.attrs["tags"] is a.attrs["tags"], r.attrs["dg"] is a.attrs["dg"]))
+        return out
+
+    pack.add(Obligation("C05.defaults[an unset list / digest field filled in place in one record, other records of the type]", lambda tier: prove_paths("C05.defaults", th_defaults, lambda p: (all(o == (0, None, 0, False, False) for o in p.value), f"records that never set the fields hold (len(tags), dg.md5, len(ports), same list object, same digest object) = {p.value!r}"), lambda m, p: {}),
+                        replay=lambda w: {"call": "c05_defaults", "args": {}}, functions=FU, mode="concrete history over three records of one type"))
+
     # ---- A3. a number that is not an integer offered to an integer-valued field: converted to an integer or rejected - never kept as it is
     for typename, src, must_reject in (("uint16", "1.5", False), ("uint32", "2.5", False), ("net.tcp.Port", "80.5", False), ("uint16", "80.0", False), ("boolean", "0.5", True), ("boolean", "1.0", False), ("uint16[]", "1.5", False), ("uint16", "65535.5", True)):
         name = f"C05.nonintegral[{typename} <- {src}]"
